@@ -201,6 +201,21 @@ def run(chk, repo):
                    "items kept in order: " + (short(comps[-1]) if comps else "<not found>"),
                    why="memory list must be the data component of the enumerated pairs, in their order", node=mi)
 
+    # ownership of the memory list
+    chk.rule("C04.memory-own", "the memory handed to the (lazily started) kernel is a list created inside __call__ on "
+                               "every path: the rebuild 'memory = [...]' in the given-memory arm is unconditional")
+    rebuilds = [n for n in ast.walk(mi) if isinstance(n, ast.Assign) and unparse(n.targets[0]) == "memory"
+                and isinstance(n.value, (ast.ListComp, ast.List)) or
+                (isinstance(n, ast.Assign) and unparse(n.targets[0]) == "memory" and isinstance(n.value, ast.Call)
+                 and unparse(n.value.func) == "list")]
+    in_else = [n for n in rebuilds if n in mi.orelse]
+    chk.decide(bool(in_else), "C04.memory-own", W("LinearFilter.__call__"),
+               "given memory is copied into a fresh list unconditionally: " + (short(in_else[0]) if in_else else
+               "no unconditional 'memory = [...]' in the given-memory arm"),
+               why="on some path the kernel keeps the caller's own list: the generator reads it only at the first "
+                   "next(), so a later mutation by the caller changes y[-k] (the memory must be the one given at the "
+                   "call)", node=mi)
+
     # ------------------------------------------------------------- exec wiring
     chk.rule("C04.exec", "the generated source is '\\n'.join(gen_func), evaluated to its 'gen'; it is called with "
                          "[iter(seq), memory, zero] followed by iter(self.numpoly[idx]) over num_iterables then "
